@@ -48,8 +48,32 @@ def same_item(item: ast.AST, want) -> bool:
     return isinstance(item, ast.Constant) and item.value == want
 
 
+_prompt_ctx = {"repo": None, "module": None}
+
+
+def prompt_is_rich_confirm(c: ast.Call) -> Optional[str]:
+    """None when the receiver of `.ask(...)` is rich.prompt.Confirm itself (its parsing of the answer is the trusted base); else why not."""
+    repo, m = _prompt_ctx["repo"], _prompt_ctx["module"]
+    if repo is None or not (isinstance(c.func, ast.Attribute) and isinstance(c.func.value, ast.Name)):
+        return None
+    r = repo.resolve_name(m, c.func.value.id)
+    if r is None:
+        return None
+    if r[0] == "ext":
+        return None if r[1].endswith("Confirm") else f"`{c.func.value.id}` is {r[1]}, not rich.prompt.Confirm"
+    if r[0] == "class":
+        k = r[1]
+        over = [n for n in ("process_response", "check_choice", "__call__", "ask", "get_input") if n in k.methods]
+        if over:
+            return f"`{k.name}` is a prompt class of the package that overrides {', '.join(over)}: what counts as a 'y' answer is no longer rich's"
+        return None
+    return None
+
+
 def confirm_default_false(c: ast.Call) -> bool:
     if not (isinstance(c.func, ast.Attribute) and c.func.attr == "ask"):
+        return False
+    if prompt_is_rich_confirm(c) is not None:
         return False
     for k in c.keywords:
         if k.arg == "default":
@@ -61,6 +85,7 @@ def approval_summary(repo: Repo, g: Func) -> Tuple[bool, str]:
     """Is g(flag) an approval predicate?  Every return that may be truthy is under
     `flag in state().flags`, or is the value of Confirm.ask(default=False) under
     `"review" in state().flags`."""
+    _prompt_ctx["repo"], _prompt_ctx["module"] = repo, g.module
     if not g.params:
         return False, "no parameter"
     p = g.params[0]
@@ -80,6 +105,9 @@ def approval_summary(repo: Repo, g: Func) -> Tuple[bool, str]:
         if isinstance(v, ast.Name):
             ds = reaching_defs(cfg, r, v.id)
             vals = [def_value(d, v.id) for d in ds]
+            bad_prompt = [prompt_is_rich_confirm(x) for x in vals if isinstance(x, ast.Call) and norm(x.func).endswith("ask") and prompt_is_rich_confirm(x)]
+            if bad_prompt:
+                return False, f"the review answer at line {r.line} is not parsed by rich's Confirm: {bad_prompt[0]}"
             if ds and all(isinstance(x, ast.Call) and norm(x.func).endswith("Confirm.ask") and confirm_default_false(x) for x in vals):
                 rev = [(c, m[1]) for c in cfg.conds() for m in [membership(c.ast, cfg, c)] if m and same_item(m[0], "review")]
                 if rev and edges_dominate(cfg, rev, r):
@@ -391,7 +419,14 @@ def session_gate(repo: Repo, rep):
                     if set(reaching_defs(cfg, m, rname)) & set(rdefs) and n in reach(cfg, [m]):
                         feeding.append((m, cc))
         if not feeding and len([x for x in fix_nodes if x[0] is n]) == 1:
-            rep.undecided("R-APPROVAL-GATE", f"no apply_all(..., {rname}) feeds `{norm(c)}`")
+            rep.violation(
+                "R-APPROVAL-GATE",
+                f,
+                c,
+                f"the recorder `{rname}` that `{norm(c)}` writes to disk is not filled by an apply_all(<approved list>, {rname}) of its own: it is an alias of / shares state with another recorder "
+                "(e.g. the preview of a category that was only shown), so changes the user did not approve are written",
+                construct=f"unfed-recorder:{rname}",
+            )
         for m, cc in feeding:
             L = cc.args[0]
             if not isinstance(L, ast.Name):
@@ -686,9 +721,6 @@ def configure(repo: Repo, rep):
         e = c.ast
         if isinstance(e, ast.Compare) and len(e.ops) == 1 and isinstance(e.ops[0], (ast.Is, ast.IsNot)) and isinstance(e.comparators[0], ast.Constant) and e.comparators[0].value is None and "inline_snapshot" in norm(e.left):
             cli_none.append((c, "T" if isinstance(e.ops[0], ast.Is) else "F"))
-    if not cli_none:
-        rep.undecided("R-CONFIGURE", "test `config.option.inline_snapshot is None` not found")
-        return
     for d in fdefs:
         v = def_value(d, flagvar)
         if v is None:
@@ -696,8 +728,18 @@ def configure(repo: Repo, rep):
         from_default = [nm for nm in names_in(v) if nm.startswith("default") or "default" in nm]
         from_cli = "inline_snapshot" in norm(v) or derives_from(cfg, d, v, lambda x: isinstance(x, ast.Attribute) and x.attr == "inline_snapshot", depth=2)
         if from_default:
-            if edges_dominate(cfg, cli_none, d):
+            falsy_fallback = isinstance(v, ast.BoolOp) and isinstance(v.op, ast.Or) or isinstance(v, ast.IfExp) and not (isinstance(v.test, ast.Compare) and any(isinstance(o, (ast.Is, ast.IsNot)) for o in v.test.ops))
+            if cli_none and edges_dominate(cfg, cli_none, d) and not falsy_fallback:
                 rep.ok("R-CONFIGURE", f, d.ast, "defaults used only when the CLI option is None")
+            elif falsy_fallback or not cli_none:
+                rep.violation(
+                    "R-CONFIGURE",
+                    f,
+                    d.ast,
+                    f"`{short(d.ast, 60)}` falls back to the default flags whenever the command-line value is *empty*, not only when the option is absent (`is None`): "
+                    "an explicit `--inline-snapshot=` or a shortcut defined as [] picks up the categories of default-flags / INLINE_SNAPSHOT_DEFAULT_FLAGS that the user did not ask for in this session",
+                    construct="default-on-empty",
+                )
             else:
                 rep.violation("R-CONFIGURE", f, d.ast, "the default flags (environment / pyproject) are used although --inline-snapshot was given on the command line")
             dv = from_default[0]
